@@ -657,6 +657,16 @@ func (fc *fnCtx) assignTarget(env *Env, text string) assignTarget {
 				}
 				continue
 			}
+			if strings.HasPrefix(a, "map:") {
+				// map:map[K]V — the heaps of maps of that type
+				mt, ok := env.resolveType(parseExprOrBail(strings.TrimPrefix(a, "map:"))).Underlying().(*types.Map)
+				if !ok {
+					bail("heapexcept: map: needs a map type")
+				}
+				d, v := fc.mapHeaps(mt)
+				keep = append(keep, d, v)
+				continue
+			}
 			if strings.HasPrefix(a, "ghost:") {
 				d, v := fc.ghostHeaps(strings.TrimPrefix(a, "ghost:"))
 				keep = append(keep, d, v)
